@@ -323,6 +323,19 @@ func genVarCase(t *rapid.T, emphasis string) varCase {
 		in := genSamInput(t, samGenOpts{maxQueries: 3, maxRecs: 3, allowNoise: true, fixedRef: c.Anno.Ref, fixedRefName: c.Anno.RefName})
 		c.Sam = &in
 		c.RefFromFile = rapid.IntRange(0, 3).Draw(t, "refFromFile") != 0
+		if !c.RefFromFile && rapid.IntRange(0, 2).Draw(t, "queryNamedLikeReference") == 0 {
+			// the reference comes from the annotation; one query happens to carry the reference's name (the reference genome
+			// aligned to itself, as pipelines that concatenate it to the reads produce)
+			names, _ := in.groups()
+			if len(names) > 0 && !contains(names, c.Anno.RefName) {
+				old := names[0]
+				for i := range in.Recs {
+					if in.Recs[i].Name == old {
+						in.Recs[i].Name = c.Anno.RefName
+					}
+				}
+			}
+		}
 	}
 	return c
 }
